@@ -1,14 +1,170 @@
 import ShVerif.Model.L3Glob
 import ShVerif.Proofs.L3Glob
+import ShVerif.Proofs.C17
 /-
   C17 — Glob patterns match exactly what bash matches.
+
+  `regexpOf` is the model of pattern.Regexp (tied to pattern.go by exhaustive correspondence on the
+  printed form), `Top.matches` the Brzozowski-derivative semantics of the emitted expression
+  (validated against Go's regexp), `globMatch` the reference semantics written from bash's rules
+  (validated against bash), `malformed` the reference parser's verdict, `supported` the syntactic
+  region in which pattern.go's known quirks do not fire (Model/L3Glob §6).
 -/
 namespace ShVerif.C17
 open ShVerif ShVerif.L3
+
+/-! ## The statements at full strength (false of the code today: counter-examples below) -/
 
 /-- Language equality between the emitted regular expression and the reference semantics. -/
 def regexp_language_statement : Prop :=
   ∀ (m : Mode) (p : Str) (t : Top), m.entire = true → regexpOf m p = .ok t →
     ∀ s, t.matches s = globMatch m p s
+
+/-- A syntax error is reported exactly for the malformed patterns (and it is the same error). -/
+def regexp_error_iff_statement : Prop :=
+  ∀ (m : Mode) (p : Str) (e : Err), (∀ g, e ≠ .negExt g) →
+    (regexpOf m p = .error e ↔ malformed m p = some e)
+
+/-- The printed form of a result lies inside the RE2 subset grammar `Top.wf` (so it compiles). -/
+def regexp_compiles_statement : Prop :=
+  ∀ (m : Mode) (p : Str) (t : Top), regexpOf m p = .ok t → t.wf = true
+
+/-- internal.ExtendedPatternMatcher never panics and decides the reference semantics. -/
+def extended_matcher_statement : Prop :=
+  ∀ (m : Mode) (p : Str), m.entire = true →
+    extMatcher m p ≠ .panic ∧ ∀ f, extMatcher m p = .ok f → ∀ s, f s = globMatch m p s
+
+/-- The language theorem on the whole `supported` region, every mode (filename modes and
+    extended operators included).  Stated only: the proof below covers the modes without
+    Filenames and without ExtendedOperators. -/
+def regexp_language_supported_statement : Prop :=
+  ∀ (m : Mode) (p : Str) (t : Top), m.entire = true → supported m p = true → regexpOf m p = .ok t →
+    ∀ s, t.matches s = globMatch m p s
+
+/-! ## What is proved -/
+
+/-- **Language equality**, for every EntireString mode without Filenames and without
+    ExtendedOperators (any combination of NoGlobCase, Shortest, NoGlobStar, GlobLeadingDot), on the
+    `supported` patterns: the expression `Regexp` returns accepts exactly the strings the
+    pattern matches under the reference semantics. -/
+theorem regexp_language_partial (m : Mode) (p : Str) (t : Top) (he : m.entire = true)
+    (hx : m.ext = false) (hf : m.filenames = false) (hs : supported m p = true)
+    (h : regexpOf m p = .ok t) : ∀ s, t.matches s = globMatch m p s := by
+  intro s
+  have ha := top_agree m hx hf p.length (p.length + 1) .start 0 p (p.length + 1) (p.length + 1)
+    (Nat.lt_succ_self _) (Nat.lt_succ_self _) hs
+  rw [regexpOf_entire he] at h
+  unfold globMatch parseGlob
+  cases hp : parseSeq m (p.length + 1) 0 p with
+  | error e =>
+    rw [hp] at ha
+    simp only [TopAgree] at ha
+    rw [ha] at h
+    cases h
+  | ok g =>
+    rw [hp] at ha
+    simp only [TopAgree] at ha
+    obtain ⟨body, hb, hsem⟩ := ha
+    rw [hb] at h
+    simp at h
+    subst h
+    simp only [Top.matches, he, if_true]
+    rw [Bool.eq_iff_iff, rmatch_iff, gmatch_full_iff]
+    exact hsem true s
+
+/-- **Errors**, same region: `Regexp` reports a syntax error exactly when the reference parser
+    rejects the pattern, and it reports the same error. -/
+theorem regexp_error_iff_partial (m : Mode) (p : Str) (e : Err) (he : m.entire = true)
+    (hx : m.ext = false) (hf : m.filenames = false) (hs : supported m p = true) :
+    regexpOf m p = .error e ↔ malformed m p = some e := by
+  have ha := top_agree m hx hf p.length (p.length + 1) .start 0 p (p.length + 1) (p.length + 1)
+    (Nat.lt_succ_self _) (Nat.lt_succ_self _) hs
+  rw [regexpOf_entire he]
+  unfold malformed parseGlob
+  cases hp : parseSeq m (p.length + 1) 0 p with
+  | error e' =>
+    rw [hp] at ha
+    simp only [TopAgree] at ha
+    rw [ha]
+    simp
+  | ok g =>
+    rw [hp] at ha
+    simp only [TopAgree] at ha
+    obtain ⟨body, hb, _⟩ := ha
+    rw [hb]
+    simp
+
+/-- In that region `Regexp` never answers with a NegExtGlobError. -/
+theorem regexp_total_partial (m : Mode) (p : Str) (he : m.entire = true)
+    (hx : m.ext = false) (hf : m.filenames = false) (hs : supported m p = true) :
+    (∃ t, regexpOf m p = .ok t) ∨ (∃ e, regexpOf m p = .error e ∧ malformed m p = some e) := by
+  cases h : regexpOf m p with
+  | ok t => exact .inl ⟨t, rfl⟩
+  | error e => exact .inr ⟨e, rfl, (regexp_error_iff_partial m p e he hx hf hs).mp h⟩
+
+/-- The derivative matcher used above decides the language of the expression. -/
+theorem rmatch_sound (nc : Bool) (r : Regex) (s : Str) : rmatch nc r s = true ↔ Matches nc r s :=
+  rmatch_iff nc r s
+
+/-- The backtracking reference matcher decides the declarative semantics `GDen`. -/
+theorem globMatch_sound (m : Mode) (g : Glob) (b : Bool) (s : Str) :
+    gmatch m g b s (fun _ r => r.isEmpty) = true ↔ GDen m g b s :=
+  gmatch_full_iff m g b s
+
+/-! ## Counter-examples to the full statements (each replayed on the Go code by the harness) -/
+
+def m4 : Mode := Mode.ofNat 4      -- EntireString
+def m6 : Mode := Mode.ofNat 6      -- Filenames | EntireString
+def m68 : Mode := Mode.ofNat 68    -- EntireString | ExtendedOperators: `case`, [[ ]]
+
+/-- `?a` matches `.a` in filename mode without dotglob (C17-leading-dot); `@(a(b)c)` does not
+    match `a(b)c` (C17-bare-paren-in-group). -/
+theorem regexp_language_counterexample : ¬ regexp_language_statement := by
+  intro h
+  have h1 : regexpOf m6 (strOf "?a") = .ok
+      { plain := false, nocase := false, shortest := false, entire := true,
+        body := .cat notSlash (.cat (.chr 97) .eps) } := eq_ok_of_okTop (by decide +kernel)
+  have h2 := h m6 (strOf "?a") _ (by decide) h1 (strOf ".a")
+  revert h2
+  decide +kernel
+
+/-- `[-+]` is not malformed, yet `Regexp` reports "invalid range: [-+" (C17-bracket-dash). -/
+theorem regexp_error_iff_counterexample : ¬ regexp_error_iff_statement := by
+  intro h
+  have h1 : regexpOf m4 (strOf "[-+]") = .error (.badRange 91 43) := eq_error_of_errOf (by decide +kernel)
+  have h2 := (h m4 (strOf "[-+]") (.badRange 91 43) (by intro g; simp)).mp h1
+  revert h2
+  decide +kernel
+
+/-- `@(abc` gives `(abc\x00` (C17-unterminated-extglob). -/
+theorem regexp_compiles_counterexample : ¬ regexp_compiles_statement := by
+  intro h
+  have h1 : regexpOf m68 (strOf "@(abc") = .ok
+      { plain := false, nocase := false, shortest := false, entire := true,
+        body := .cat (.ugrp (.cat (.chr 97) (.cat (.chr 98) (.cat (.chr 99) .eps)))) .eps } :=
+    eq_ok_of_okTop (by decide +kernel)
+  have h2 := h m68 (strOf "@(abc") _ h1
+  revert h2
+  decide +kernel
+
+/-- The matcher panics on `@(abc`, on `[A-\0]` and on `!(`. -/
+theorem extended_matcher_counterexample : ¬ extended_matcher_statement := by
+  intro h
+  have h1 := (h m68 (strOf "@(abc") (by decide)).1
+  have h2 : isPanic (extMatcher m68 (strOf "@(abc")) = true := by decide +kernel
+  cases hm : extMatcher m68 (strOf "@(abc") with
+  | panic => exact h1 hm
+  | err e => simp [hm, isPanic] at h2
+  | unsupported => simp [hm, isPanic] at h2
+  | ok f => simp [hm, isPanic] at h2
+
+/-! Non-vacuity of the hypotheses of the partial theorems, and sanity of the two semantics. -/
+example : supported m4 (strOf "a*[!b-d[:digit:]]\\??") = true := by decide +kernel
+example : supported m4 (strOf "[-+]") = false := by decide +kernel
+example : globMatch m4 (strOf "a*[!b-d[:digit:]]\\??") (strOf "axyz?q") = true := by decide +kernel
+example : globMatch m4 (strOf "a*[!b-d[:digit:]]\\??") (strOf "axyc?q") = false := by decide +kernel
+example : globMatch m4 (strOf "[-+]") (strOf "-") = true := by decide +kernel
+example : malformed m4 (strOf "[z-a]") = some (.badRange 122 97) := by decide +kernel
+example : globMatch m68 (strOf "@(a(b)c)") (strOf "a(b)c") = true := by decide +kernel
 
 end ShVerif.C17
